@@ -186,6 +186,33 @@ func (c Collection) UpFlows() ([]reflect.Type, []reflect.Type) {
 	})
 }
 
+// netReturns lists the types that are returned to whatever invokes the collection:
+// every type returned by a provider unless a provider above it receives that type.
+// Unlike UpFlows, a wrapper that returns a type that it also receives counts as
+// returning it.
+func (c Collection) netReturns() []reflect.Type {
+	receivedAbove := make(map[reflect.Type]struct{})
+	seen := make(map[reflect.Type]struct{})
+	returns := make([]reflect.Type, 0, len(c.contents))
+	for _, fm := range c.contents {
+		received, returned := fm.UpFlows()
+		for _, t := range returned {
+			if _, ok := receivedAbove[t]; ok {
+				continue
+			}
+			if _, ok := seen[t]; ok {
+				continue
+			}
+			seen[t] = struct{}{}
+			returns = append(returns, t)
+		}
+		for _, t := range received {
+			receivedAbove[t] = struct{}{}
+		}
+	}
+	return returns
+}
+
 // stripUnused redacts unusedType from lists
 func stripUnused(list []reflect.Type) []reflect.Type {
 	for i, t := range list {
